@@ -54,6 +54,12 @@ Proof. subst A; tie. Qed.
 Lemma tie_jones_inv : cnz (m2det A) ->
   jones_inv (OO:=ROps) a00r a00i a01r a01i a10r a10i a11r a11i = m2list (m2inv A).
 Proof. subst A; tie. Qed.
+Lemma tie_jones_assign_real : jones_assign_real (OO:=ROps) a00r a00i a01r a01i a10r a10i a11r a11i r = m2list (m2scale (cofR r) m2id).
+Proof. tie. Qed.
+Lemma tie_jones_assign_complex : jones_assign_complex (OO:=ROps) a00r a00i a01r a01i a10r a10i a11r a11i zr zi = m2list (m2scale z m2id).
+Proof. subst z; tie. Qed.
+Lemma tie_jones_assign_copy : jones_assign_copy (OO:=ROps) a00r a00i a01r a01i a10r a10i a11r a11i b00r b00i b01r b01i b10r b10i b11r b11i = m2list A.
+Proof. subst A; tie. Qed.
 Lemma tie_jones_scalar_ctor : jones_scalar_ctor (OO:=ROps) r = m2list (m2scale (cofR r) m2id).
 Proof. tie. Qed.
 
